@@ -47,6 +47,10 @@ def gen_plan(seed: int, tier: str) -> dict:
         for _ in range(r.randint(2, 5)):
             kind = r.choice(["get", "put", "put"])
             reqs.append({"kind": kind, "pick": r.sample(range(8), n), "status": [r.choice([0, 0, 0, r.choice([1, 2, 3, 4, 5, 6])]) for _ in range(n)]})
+            if transport == "ble" and r.random() < 0.25:
+                # the link drops at the k-th GATT operation of this request (between the write and the read of one characteristic,
+                # between two characteristics ...): bleak raises a retryable error and the library reconnects and retries on its own
+                reqs[-1]["drop_after"] = r.randrange(1, 14)
             if kind == "get" and not any(reqs[-1]["status"]) and r.random() < 0.3:
                 # a caller may name one characteristic twice: every requested characteristic must still be answered
                 reqs[-1]["pick"].insert(1, reqs[-1]["pick"][0])
@@ -381,7 +385,7 @@ def execute_ble(plan: dict, ch: Chooser) -> dict:
         chars.append(ba.GChar(f"000002{0xA0 + k:02X}" + ba.BASE, 50 + k, fmts[k], perms=perms, value=val))
     svc = ba.GService("00000043" + ba.BASE, 48, chars)
     acc = ba.BleAccessory(ident, {"ios-1": RC.ed_pub(ios_ltsk)}, ba.standard_services([svc]), eph=lambda w, n: ch.nbytes("acc." + w, n))
-    wble.SimLink(ctx, "00:11:22:33:44:13", acc, {"mtu": 247})
+    link = wble.SimLink(ctx, "00:11:22:33:44:13", acc, {"mtu": 247})
     acc.frag_size = 244
     nontrivial = False
 
@@ -414,6 +418,9 @@ def execute_ble(plan: dict, ch: Chooser) -> dict:
             ctx.obligations += 1
             nontrivial = nontrivial or len(set(bool(x) for x in st)) > 1
             res, exc = None, None
+            drops0 = link.drops
+            if req.get("drop_after"):
+                link.drop_at_op = link.ops + req["drop_after"]
             try:
                 if req["kind"] == "get":
                     res = await p.get_characteristics([(1, c_.iid) for c_ in cs])
@@ -421,7 +428,24 @@ def execute_ble(plan: dict, ch: Chooser) -> dict:
                     res = await p.put_characteristics([(1, c_.iid, _newval(c_)) for c_ in cs])
             except Exception as e:  # noqa: BLE001
                 exc = e
+            link.drop_at_op = None
+            dropped = link.drops > drops0
+            if dropped:
+                ctx.probe("ble_link_dropped_inside_request")
+                if exc is None:
+                    ctx.probe("ble_request_retried_transparently_after_drop")
             acc.status_plan = {}
+            if dropped and exc is not None:
+                # the request failed as a whole because of the injected link loss: nothing to compare (a later request still must
+                # not present anything wrongly); make sure the pairing can carry on
+                ctx.event("ble-req", idx, req["kind"], st, "failed-after-drop", type(exc).__name__)
+                told = set()
+                for ev in notes:
+                    told |= {k[1] for k in ev}
+                extra = told - {iid for iid, _ in acc.writes_applied[applied0:]}
+                if extra:
+                    ctx.violate("put-listener-notifications", "ble/extra", f"ble put failed after a link loss ({exc!r}) but listeners were told of {sorted(extra)}, which the accessory never accepted")
+                continue
             ctx.event("ble-req", idx, req["kind"], st, type(exc).__name__ if exc else None)
             applied = {iid for iid, _ in acc.writes_applied[applied0:]}
             if req["kind"] == "get":
